@@ -134,9 +134,17 @@ def gen_soil(rng, profile, zmax=2.3):
                              ("z_germ", [0.1, 0.25, 0.3, 0.35, 0.5], 0.4),
                              ("z_top", [0.1, 0.15, 0.2, 0.3, 0.4, 0.6], 0.3),
                              ("evap_z_min", [0.1, 0.15, 0.2], 0.15),
+                             ("evap_z_max", [0.15, 0.2, 0.3, 0.4], 0.15),
+                             ("fwcc", [30, 50, 70], 0.08),
                              ("fshape_cr", [8, 16], 0.1)]:
             if rng.random() < p:
                 kwargs[key] = rng.choice(vals)
+    if rng.random() < _p(profile, "fixed_evap_layer_p", 0.08):
+        # a fixed evaporation layer: the layer is not allowed to expand in stage 2
+        kwargs["evap_z_max"] = kwargs.get("evap_z_min", 0.15)
+    if kwargs.get("evap_z_max", 0.30) < kwargs.get("evap_z_min", 0.15):
+        # the evaporation layer may be fixed (max == min) but not inverted
+        kwargs["evap_z_max"] = kwargs.get("evap_z_min", 0.15)
     # domain table: the surface-layer depths lie inside the profile as given (before any deepening for the crop)
     depth = round(sum(kwargs["dz"]), 2) if "dz" in kwargs else (2.0 if typ == "ac_TunisLocal" else 1.2)
     for key in ("z_cn", "z_germ", "z_top"):
@@ -240,7 +248,7 @@ def gen_field(rng, profile, soil_cn):
         f["f_mulch"] = rng.choice([0.0, 0.3, 0.5, 1.0])
     if rng.random() < _p(profile, "bunds", 0.35):
         f["bunds"] = True
-        f["z_bund"] = rng.choice(_p(profile, "z_bund_choices", [0.02, 0.05, 0.1, 0.2, 0.3]))
+        f["z_bund"] = rng.choice(_p(profile, "z_bund_choices", [0.02, 0.05, 0.1, 0.2, 0.3, 0.0005, 0.002]))
         f["bund_water"] = rng.choice([0, 0, 10, 50, 150, 400])
     if rng.random() < _p(profile, "sr_inhb_p", 0.15):
         f["sr_inhb"] = True
